@@ -77,7 +77,9 @@ def identity_comps():
             {'D': 3, 'C': 1, 'H': 1}, {'13C': 6}, {'C': 2, 'H': 0, 'O': 1}, {'C': 3, 'N': 0},
             # every spelling of a labelled atom
             {'2H': 2, 'C': 2, 'H': 4}, {'T': 1, 'C': 1, 'H': 3}, {'3H': 1, 'C': 1}, {'15N': 2, 'N': 1},
-            {'18O': 1, 'O': 1, 'H': 2}, {'34S': 1, 'S': 1}, {'2H': 1.5, 'C': 1}]
+            {'18O': 1, 'O': 1, 'H': 2}, {'34S': 1, 'S': 1}, {'2H': 1.5, 'C': 1},
+            # no atoms at all, only particles
+            {'p': 1}, {'e': -1}, {'C': 0, 'H': 0, 'p': 2, 'e': 1}, {'n': 2}]
     return out
 
 
